@@ -213,6 +213,27 @@ def is_write(fn, i):
     return False
 
 
+def possible_tags_at(fn, i, tags, prog, sw=None):
+    """Tags this->type_ can have when statement i executes: switch-case
+    reachability intersected with the dominating guards that depend on type_
+    only.  None = no constraint recognised."""
+    pb = fn.block_of(i)
+    if pb is None:
+        return None
+    possible = None
+    for head, reach_tags in (sw if sw is not None else switch_constraints(fn, tags)):
+        if pb[0] in reach_tags:
+            ts = reach_tags[pb[0]]
+            possible = set(ts) if possible is None else possible & ts
+    for cond, pol in fn.guards_of(i):
+        vals = {n: truth(fn, cond, v, prog) for n, v in tags.items()}
+        if any(x is None for x in vals.values()):
+            continue
+        ts = {n for n, x in vals.items() if x == pol}
+        possible = set(ts) if possible is None else possible & ts
+    return possible
+
+
 def run(ctx, prog, rule="R-TAG"):
     tags = tag_table(prog)
     if not tags:
